@@ -353,6 +353,11 @@ def small_lattices():
 def gen_random_ranges(rng, count, nmax):
     for _ in range(count):
         b = lattice_bins(rng, nmax)
+        if rng.random() < 0.15:
+            # the same geometry in small numbers (wavelengths in metres: 2^-30 .. 2^-36 of the Angstrom values);
+            # powers of two keep every operation exact
+            k = F(2) ** -rng.randint(30, 36)
+            b = [x * k for x in b]
         if rng.random() < 0.5:
             cen = rng.choice(cen_candidates(b))
             mode = rng.choice(MODES)
